@@ -25,6 +25,7 @@ RULES = {
     "C05.VER": "pairing of graph writes with the etag bump, content-derived etag, monotone index version",
     "C05.ISO": "instance discriminator / content-derived version in keys of module-global caches",
     "C05.ALIAS": "no mutation of cached objects by readers except diagnostic metric fields",
+    "C05.ENTRY": "field tables: fields the hit path reads out of a cached entry vs fields every store site puts in (dict literals, comprehensions over constant tuples, helper return tuples)",
 }
 
 T1 = "clematis.engine.stages.t1"
@@ -470,7 +471,133 @@ def rule_alias(ctx) -> None:
     ctx.holds("C05.ALIAS", "T1/no-mutation-of-cached-deltas", outer.loc(), f"{n_checked} mutation sites in the fold/merge checked: none targets a name that aliases a per-graph (cached) delta list")
 
 
+def _key_tree(ctx, fn: Func, e: ast.AST, at, depth: int = 0):
+    """{field: subtree-or-True} of the dict denoted by e at `at`; None when it cannot be determined.  Follows locals, tuple
+    unpacking of a program helper's returned tuple, dict comprehensions over a constant tuple, `{**a, k: v}` and dict(a)."""
+    if depth > 6:
+        return None
+    if isinstance(e, ast.Dict):
+        out = {}
+        for k, v in zip(e.keys, e.values):
+            if k is None:
+                sub = _key_tree(ctx, fn, v, at, depth + 1)
+                if not isinstance(sub, dict):
+                    return None
+                out.update(sub)
+            elif const_str(k) is not None:
+                sub = _key_tree(ctx, fn, v, at, depth + 1)
+                out[const_str(k)] = sub if isinstance(sub, dict) else True
+            else:
+                return None
+        return out
+    if isinstance(e, ast.DictComp) and len(e.generators) == 1 and isinstance(e.generators[0].target, ast.Name) and isinstance(e.key, ast.Name) and e.key.id == e.generators[0].target.id \
+            and not e.generators[0].ifs:
+        it = e.generators[0].iter
+        if isinstance(it, ast.Name):
+            # module-level constant tuple / list
+            for st in fn.module.tree.body:
+                if isinstance(st, ast.Assign) and any(isinstance(t, ast.Name) and t.id == it.id for t in st.targets):
+                    it = st.value
+        if isinstance(it, (ast.Tuple, ast.List)) and all(const_str(x) is not None for x in it.elts):
+            return {const_str(x): True for x in it.elts}
+        return None
+    if isinstance(e, ast.Call) and dotted(e.func) == "dict" and len(e.args) == 1 and not e.keywords:
+        return _key_tree(ctx, fn, e.args[0], at, depth + 1)
+    if isinstance(e, ast.Name):
+        rd = ctx.rd(fn)
+        ds = [d for d in rd.reaching(e.id, at) if d.kind != "mutate"]
+        if len(ds) != 1:
+            trees = [_key_tree_def(ctx, fn, d, depth) for d in ds]
+            if trees and all(isinstance(t, dict) for t in trees):
+                # fields present whichever definition reaches: the intersection
+                keys = set(trees[0])
+                for t in trees[1:]:
+                    keys &= set(t)
+                return {k: trees[0][k] for k in keys}
+            return None
+        return _key_tree_def(ctx, fn, ds[0], depth)
+    return None
+
+
+def _key_tree_def(ctx, fn: Func, d, depth: int):
+    if d.kind in ("assign", "walrus") and d.value is not None:
+        return _key_tree(ctx, fn, d.value, d.node, depth + 1)
+    if d.kind == "unpack" and isinstance(d.node.ast, ast.Assign) and isinstance(d.node.ast.value, ast.Call):
+        # a, b = helper(...): position of the name in the target tuple -> that element of the helper's returned tuple
+        tgt = d.node.ast.targets[0]
+        if isinstance(tgt, ast.Tuple):
+            idx = next((i for i, t in enumerate(tgt.elts) if isinstance(t, ast.Name) and t.id == d.name), None)
+            cal = ctx.prog.callee(fn, d.node.ast.value)
+            if idx is not None and cal is not None and cal[0] == "func" and cal[1] in ctx.prog.funcs:
+                g = ctx.prog.funcs[cal[1]]
+                gcfg = ctx.cfg(g)
+                trees = []
+                for n in gcfg.nodes:
+                    if n.kind == "stmt" and isinstance(n.ast, ast.Return) and isinstance(n.ast.value, ast.Tuple) and idx < len(n.ast.value.elts):
+                        trees.append(_key_tree(ctx, g, n.ast.value.elts[idx], n, depth + 1))
+                if trees and all(isinstance(t, dict) for t in trees):
+                    keys = set(trees[0])
+                    for t in trees[1:]:
+                        keys &= set(t)
+                    return {k: trees[0][k] for k in keys}
+    return None
+
+
+def rule_entry_complete(ctx) -> None:
+    """a hit is rebuilt from the stored entry: every field the hit path reads out of the entry (with a silent default:
+    `hit['metrics'].get('radius_cap_hits', 0)`) must be a field that every store site puts in.  An entry that carries fewer
+    fields - e.g. a slimmed-down entry for the byte-bounded cache only - makes the hit report zeros where a fresh computation
+    counted caps hit, with the right key, no error and no change for graphs that hit no cap."""
+    fn = ctx.func(T1 + ":t1_propagate._t1_one_graph")
+    cfg = ctx.cfg(fn)
+    rd = ctx.rd(fn)
+    # the hit variable(s): bound to cache.get(key)
+    hits = {d.name for d in rd.all_defs if d.kind == "assign" and isinstance(d.value, ast.Call) and call_tail(d.value) == "get" and isinstance(d.value.func, ast.Attribute)
+            and any(isinstance(p.value, ast.Call) and call_tail(p.value) in ("put", "set") and isinstance(p.value.func, ast.Attribute) and src(p.value.func.value) == src(d.value.func.value)
+                    for p in walk_no_defs(fn.node) if isinstance(p, (ast.Expr, ast.Assign)) and isinstance(p.value, ast.Call))}
+    if not hits:
+        raise AnalysisError("anchor-vanished: no `hit = cache.get(key)` paired with a cache.put in _t1_one_graph")
+    reads: Set[Tuple[str, ...]] = set()
+    for x in walk_no_defs(fn.node):
+        path: List[str] = []
+        cur = x
+        # hit[a][b] / hit[a].get(b, d) / hit.get(a)
+        while True:
+            if isinstance(cur, ast.Subscript) and const_str(cur.slice) is not None:
+                path.append(const_str(cur.slice))
+                cur = cur.value
+            elif isinstance(cur, ast.Call) and isinstance(cur.func, ast.Attribute) and cur.func.attr == "get" and cur.args and const_str(cur.args[0]) is not None:
+                path.append(const_str(cur.args[0]))
+                cur = cur.func.value
+            else:
+                break
+        if path and isinstance(cur, ast.Name) and cur.id in hits:
+            reads.add(tuple(reversed(path)))
+    reads = {r for r in reads if not any(len(o) > len(r) and o[:len(r)] == r for o in reads)}  # leaves only
+    ctx.floor("C05.ENTRY", "fields the T1 hit path reads out of the cached entry", len(reads), 6)
+    puts = [(n, c) for n in sorted(cfg.nodes, key=lambda z: z.id) for c in node_calls(n) if call_tail(c) in ("put", "set") and isinstance(c.func, ast.Attribute) and len(c.args) >= 2]
+    ctx.floor("C05.ENTRY", "store sites of the T1 cache", len(puts), 2)
+    for n, c in puts:
+        tree = _key_tree(ctx, fn, c.args[1], n)
+        key = ctx.okey(f"{fn.qual}/stored-entry-has-every-field-a-hit-reads")
+        if tree is None:
+            ctx.undecided("C05.ENTRY", key, fn.loc(c), f"the fields of the entry stored by `{src(c)[:50]}` cannot be determined")
+            continue
+        missing = []
+        for r in sorted(reads):
+            t = tree
+            for part in r:
+                if not isinstance(t, dict) or part not in t:
+                    missing.append(".".join(r))
+                    break
+                t = t[part]
+        ctx.check(not missing, "C05.ENTRY", key, fn.loc(c), f"the stored entry has all {len(reads)} fields the hit path reads",
+                  f"the entry stored by `{src(c)[:50]}` lacks {missing}: the hit path reads them with a default, so a hit reports 0 where the fresh computation counted - "
+                  "cache on and cache off disagree on T1 counters although the key is right")
+
+
 def run(ctx) -> None:
+    rule_entry_complete(ctx)
     ka = rule_key_t2(ctx)
     rule_key_turn(ctx, ka)
     rule_key_t1(ctx)
